@@ -80,17 +80,29 @@ pub fn exec(sc: &Scenario, st: &mut Stats) -> Option<Violation> {
                     }
                     *count += 1;
                 }
-                Op::Gen { g, skip, len, .. } => {
+                Op::Gen { g, skip, len, fault, every, reset_every, .. } => {
                     what = "next()";
-                    let mut w = World::from_desc(g);
-                    for _ in 0..*skip {
-                        let _ = w.clean();
-                    }
-                    for _ in 0..*len {
-                        let x = w.clean();
-                        let (o, _) = on(Side::Subject, || node.feed(spec.mode, &x));
+                    let mut resets = 0u64;
+                    world::expand_gen(g, *skip, *len, *fault, *every, *reset_every, |x, _f, reset| {
+                        if reset {
+                            on(Side::Subject, || node.reset());
+                            *count = 0;
+                            *was_reset = true;
+                            resets += 1;
+                        }
+                        let (o, _) = on(Side::Subject, || node.feed(spec.mode, x));
                         digest = fnv_u64(digest, o.bits()[0]);
                         *count += 1;
+                        true
+                    });
+                    if let Some(f) = fault {
+                        if *every > 0 {
+                            *st.faults.entry(f.name()).or_insert(0) += *len / *every;
+                        }
+                    }
+                    st.add("resets_inside_generated_streams", resets);
+                    if *len >= 65_536 {
+                        st.bump("runs_past_65536_calls");
                     }
                     st.ticks += *len;
                     st.comparisons += *len;
@@ -289,7 +301,7 @@ fn grid_b(idx: u64, specs: &[NodeSpec], starts: &[u64], cyc: &[(Input, Fault)]) 
     let shape = (idx % 4) as usize;
     if s > 24 {
         // long clean prefixes as one generated stream op keeps the scenario small
-        ops.push(Op::Gen { n: 0, g: StreamDesc { regime: [Regime::Up, Regime::Down, Regime::Few, Regime::Flat][shape], level: crate::sut::Fx(10.0), saw: 3, seed: 7 }, skip: 0, len: s as u64 });
+        ops.push(Op::Gen { n: 0, g: StreamDesc { regime: [Regime::Up, Regime::Down, Regime::Few, Regime::Flat][shape], level: crate::sut::Fx(10.0), saw: 3, seed: 7 }, skip: 0, len: s as u64, fault: None, every: 0, reset_every: 0 });
     } else {
         for j in 0..s {
             ops.push(Op::Feed { n: 0, x: clean_tick(j, shape), f: Fault::Clean });
@@ -341,6 +353,15 @@ pub fn generate(rng: &mut Rng, tier: Tier) -> Scenario {
     let mut buf = vec![];
     let mut fed = 0;
     let mut forks = 0usize;
+    // a few very long runs on small windows: counters narrower than usize (u16/u32 cursors) would wrap
+    if rng.chance(0.004) && sp <= 48 {
+        let total: u64 = match tier {
+            Tier::Quick => 70_000,
+            Tier::Thorough => rng.range(70_000, 400_000) as u64,
+        };
+        let fault = if rng.chance(0.5) { Some(*rng.pick(&world::VALUE_FAULTS)) } else { None };
+        ops.push(Op::Gen { n: 0, g: World::random_desc(rng), skip: 0, len: total, fault, every: if fault.is_some() { rng.range(2, 5000) as u64 } else { 0 }, reset_every: if rng.chance(0.3) { rng.range(1, 30_000) as u64 } else { 0 } });
+    }
     while fed < len {
         buf.clear();
         world::tick(&mut w, &plan, rng, &mut buf);
